@@ -1000,8 +1000,15 @@ func (h H) batchHandedOverAtClose(rule string) {
 			return
 		}
 		n++
+		// the batch is the value sent on the channel before the close
+		batch := ""
+		core.Instrs(fn, func(y ssa.Instruction) {
+			if s, ok := y.(*ssa.Send); ok && fi.Sym(s.Chan).String() == "Raft.newEntryCh" && batch == "" {
+				batch = fi.Sym(s.X).String()
+			}
+		})
 		res := fi.MustCrossOrPass(c, func(a core.Atom) bool {
-			return a.Op == "==" && a.R == "nil" && strings.HasPrefix(a.L, "phi(")
+			return a.Op == "==" && a.R == "nil" && strings.HasPrefix(a.L, "phi(") && (batch == "" || a.L == batch)
 		}, nil, func(x ssa.Instruction) bool {
 			if s, ok := x.(*ssa.Send); ok {
 				return fi.Sym(s.Chan).String() == "Raft.newEntryCh" && strings.HasPrefix(fi.Sym(s.X).String(), "phi(")
@@ -1011,6 +1018,21 @@ func (h H) batchHandedOverAtClose(rule string) {
 		h.C.Check(rule, fmt.Sprintf("(*Raft).runBatch close(newEntryCh)#%d", n), res.OK, h.pos(c), "the entry channel is closed while runBatch may still hold a batch of client requests: "+res.Witness)
 	})
 	h.C.Floor(rule+" (close(newEntryCh) in runBatch)", n, 1)
+	// …and the hand-over before the close sends the batch exactly when there
+	// is one: the send lies behind `batch != nil`
+	m := 0
+	core.Instrs(fn, func(in ssa.Instruction) {
+		s, ok := in.(*ssa.Send)
+		if !ok || fi.Sym(s.Chan).String() != "Raft.newEntryCh" {
+			return
+		}
+		m++
+		x := fi.Sym(s.X).String()
+		r := fi.MustCross(in, func(a core.Atom) bool {
+			return a.Op == "!=" && (a.L == x && a.R == "nil" || a.R == x && a.L == "nil")
+		})
+		h.C.Check(rule+" hand-over-when-there-is-a-batch", fmt.Sprintf("(*Raft).runBatch send#%d on newEntryCh", m), r.OK, h.pos(in), "the pending batch is handed over under a condition other than `batch != nil`: with a batch pending nothing is sent before the channel is closed, and its tasks are never answered: "+r.Witness)
+	})
 	h.onlyCallers(rule+" who-may-call", "raft:(*Raft).runBatch", "(*Raft).Serve")
 }
 
